@@ -10,11 +10,21 @@ L2 (correspondence with `Model/Failures.lean` + the `_on_done` part of `Model/Du
      every `Optimizer.tell` argument and every `y` that reaches `estimator.fit` vs `searchTell`
   E. `RegularizedEvolution.search()`: proposals are fresh samples while the model's population is
      not full and one-gene mutations of a member of the model's population afterwards
+  A'. the `"out"` entry `_on_done` writes to the storage, and the objective of the job another evaluator
+     attached to the same search rebuilds from it (`gather_other_jobs_done`)     vs `onDoneStore` / `otherObjective`
+  G. the constant-liar ask cache over sequences of `Optimizer.ask/tell/update_next` and of
+     `CBO.ask/tell` (which ask returns a batch computed now, which a cached one)  vs `optAsk` / `cboAsk` / `cboTellCache`
 L3 (the property on the real code): success/failure patterns x failure kind x policy x surrogate x
      single/multi objective x search class x workers: search() does not raise, every failed row
-     carries a marker in every objective column, every proposal is a member of the space, and
-     relabelling the failures (same seed) leaves the proposals unchanged.
+     carries a marker in every objective column, every proposal is a member of the space,
+     relabelling the failures (same seed; ANY text after the leading 'F': none, no underscore, spaces,
+     punctuation, unicode, very long, one label per failure) leaves the proposals unchanged, and the
+     batch proposed right after a batch that failed entirely is not that batch again.
+     Two searches attached to ONE storage and search_id (taking turns): the same clauses for each of
+     them, on its own results and on the results it reads back from the storage.
 """
+import contextlib
+import io
 import copy
 import csv
 import itertools
@@ -41,6 +51,42 @@ KINDS = ["str", "nan", "inf", "-inf", "nan-in-tuple"]
 # the same failures carried by NumPy types / other return forms (only the Python type differs)
 KINDS_NP = ["nan32-in-tuple", "inf16-in-dict", "nan32-in-dict", "-inf64-in-list"]
 POLICY_MAP = {"min": "max", "mean": "mean", "ignore": "ignore"}
+# "a string starting with 'F'": the text after the leading F is arbitrary
+LABEL_POOL = ["F", "F_x", "F_", "F__", "FAILED", "Fail: out of memory", "F-timeout", "F timeout", "F.", "F:1", "F0", "False",
+              "FF", "F\u00e9\u2713", "F\u4e2d\u6587 \u2713", "F" + "x" * 300, "F_" + "y" * 300, "F,1", 'F"q"', "F_line1\nline2", "F\t",
+              "F_another_label_0123", "F ", "Fx_y"]
+_LABEL_ALPHABET = "abcXYZ019_ -:;.,!?/()[]\u00e9\u00fc\u2713\u4e2d\U0001f600'\"#%"
+# searches whose every proposal is selected among freshly drawn candidates of the whole space (which has
+# a continuous dimension): an unproposed candidate always exists and an exact repetition is never a
+# coincidence.  (RegularizedEvolution proposes one-gene mutations of a few parents: a small finite
+# candidate set, which may legitimately contain a configuration that failed before.)
+FRESH_CLASSES = ("CBO", "RandomSearch", "ExperimentalDesignSearch")
+
+
+def gen_label(rng):
+    """a failure label: 'F' followed by arbitrary text (pool + random text of random length)"""
+    if rng.random() < 0.6:
+        return rng.choice(LABEL_POOL)
+    n = rng.choice([0, 1, 2, 5, 12, 40])
+    return "F" + "".join(rng.choice(_LABEL_ALPHABET) for _ in range(n))
+
+
+def gen_labels(rng):
+    """the labels of one run: one text for all failures, or one text per failure (cycled)"""
+    if rng.random() < 0.6:
+        return gen_label(rng)
+    return [gen_label(rng) for _ in range(rng.randint(2, 4))]
+
+
+def label_at(label, k):
+    return label if isinstance(label, str) else label[k % len(label)]
+
+
+def label_form(label):
+    """'F' | 'F_*' | 'F*' (a list: the forms it contains)"""
+    if isinstance(label, str):
+        return "F" if label == "F" else ("F_*" if label.startswith("F_") else "F*")
+    return "+".join(sorted({label_form(x) for x in label}))
 
 # --------------------------------------------------------------------------- helpers
 
@@ -85,9 +131,9 @@ def valid_config(cfg):
     return c in ("a", "b") and set(cfg.keys()) == {"x", "k", "c"}
 
 
-def failure_value(kind, nobj, v, label="F_x"):
+def failure_value(kind, nobj, v, label="F_x", k=0):
     if kind == "str":
-        return label
+        return label_at(label, k)
     if kind in KINDS_NP:
         bad = {"nan32-in-tuple": np.float32("nan"), "inf16-in-dict": np.float16("inf"), "nan32-in-dict": np.float32("nan"),
                "-inf64-in-list": np.float64("-inf")}[kind]
@@ -114,13 +160,16 @@ def success_value(nobj, cfg):
 _AVAIL = {}
 
 
-def make_search(case, run, log_dir, surrogate_obj=None, extra=None):
+def make_search(case, run, log_dir, surrogate_obj=None, extra=None, storage=None):
     """the search object of a case (None + reason when the class/surrogate cannot be constructed
     for a reason outside C06, e.g. the DUMMY surrogate under scikit-learn >= 1.6)"""
     from deephyper.evaluator import Evaluator
     from deephyper.hpo import CBO, RandomSearch, RegularizedEvolution
 
-    ev = Evaluator.create(run, method="serial", method_kwargs={"num_workers": case["workers"]})
+    mk = {"num_workers": case["workers"]}
+    if storage is not None:  # (storage, search_id): several evaluators attached to one search
+        mk.update(storage=storage[0], search_id=storage[1])
+    ev = Evaluator.create(run, method="serial", method_kwargs=mk)
     p = make_problem()
     cls = case["cls"]
     seed = case.get("seed", 1)
@@ -170,25 +219,38 @@ def available(cls, surrogate):
     return _AVAIL[key]
 
 
-def run_case(case, label="F_x"):
+def _jid(job_id):
+    return int(str(job_id).split(".")[-1])
+
+
+def _cfg_key(cfg):
+    return tuple(sorted((k, repr(v)) for k, v in dict(cfg).items()))
+
+
+def run_case(case, label=None):
     """one full search() with a scripted success/failure pattern.
-    -> dict(err, configs (what the run-function received, by job id), returned (by job id), cells)"""
+    -> dict(err, configs (what the run-function received, by job id), returned (by job id), cells,
+            events (the ask / tell calls of the search, in order))"""
+    if case.get("shared"):
+        return run_shared(case, label)
+    if label is None:
+        label = (case.get("labels") or ["F_x"])[0]
     tmp = tempfile.mkdtemp(prefix="c06s_")
     try:
         pattern = case["pattern"]
         counter = itertools.count()
-        seen, ret = {}, {}
+        seen, ret, events = {}, {}, []
 
         async def run(job):
             k = next(counter)
             cfg = dict(job.parameters)
-            jid = int(str(job.id).split(".")[-1])
+            jid = _jid(job.id)
             seen[jid] = cfg
             ok = pattern[k % len(pattern)]
             try:
-                out = success_value(case["nobj"], cfg) if ok else failure_value(case["kind"], case["nobj"], 0.5, label)
+                out = success_value(case["nobj"], cfg) if ok else failure_value(case["kind"], case["nobj"], 0.5, label, k)
             except Exception:
-                out = failure_value(case["kind"], case["nobj"], 0.5, label)
+                out = failure_value(case["kind"], case["nobj"], 0.5, label, k)
             ret[jid] = out
             return out
 
@@ -196,14 +258,100 @@ def run_case(case, label="F_x"):
             s = make_search(case, run, tmp)
         except Exception as e:
             return {"unavailable": f"{type(e).__name__}: {str(e)[:80]}"}
+        oa, ot = s.ask, s.tell
+
+        def ask(n=1):
+            out = oa(n)
+            events.append(("ask", [_cfg_key(c) for c in out]))
+            return out
+
+        def tell(results):
+            try:
+                events.append(("tell", [(_jid(j.id), _cfg_key(j.args), j.objective) for j in results]))
+            except Exception:
+                events.append(("tell", None))
+            return ot(results)
+
+        s.ask, s.tell = ask, tell
         err = None
         try:
             s.search(max_evals=len(pattern))
         except Exception as e:
             err = f"{type(e).__name__}: {str(e)[:100]}"
         cells = T.read_csv_cells(os.path.join(tmp, "results.csv"))
-        return {"err": err, "configs": seen, "returned": ret, "cells": cells}
+        return {"err": err, "configs": seen, "returned": ret, "cells": cells, "events": events}
     finally:
+        shutil.rmtree(tmp, ignore_errors=True)
+
+
+def _sub(case, i):
+    """the options of search i of a shared-storage scenario"""
+    return case if i == 0 else dict(case, **case["shared"])
+
+
+def run_shared(case, label=None):
+    """two searches attached to ONE storage and search_id (the decentralised set-up / a search restarted
+    on an existing storage), taking turns: turn t runs `search(max_evals=turns[t])` of search t % 2.  The
+    pattern is indexed by the evaluations of both.
+    -> dict(err (first exception: "search i: ..."), per (one dict per search: err, configs, cells, told),
+            returned (by job id, both searches), owner (job id -> search))"""
+    from deephyper.evaluator.storage import MemoryStorage
+
+    if label is None:
+        label = (case.get("labels") or ["F_x"])[0]
+    tmp = tempfile.mkdtemp(prefix="c06m_")
+    spy = _TellSpy(passthrough=True)
+    try:
+        pattern = case["pattern"]
+        counter = itertools.count()
+        ret, owner = {}, {}
+        per = [{"err": None, "configs": {}, "cells": None, "told": []} for _ in range(2)]
+        current = [0]
+
+        async def run(job):
+            k = next(counter)
+            cfg = dict(job.parameters)
+            jid = _jid(job.id)
+            per[current[0]]["configs"][jid] = cfg
+            owner[jid] = current[0]
+            ok = pattern[k % len(pattern)]
+            try:
+                out = success_value(case["nobj"], cfg) if ok else failure_value(case["kind"], case["nobj"], 0.5, label, k)
+            except Exception:
+                out = failure_value(case["kind"], case["nobj"], 0.5, label, k)
+            ret[jid] = out
+            return out
+
+        storage = MemoryStorage()
+        sid = storage.create_new_search()
+        searches = []
+        try:
+            for i in range(2):
+                d = os.path.join(tmp, f"s{i}")
+                os.makedirs(d)
+                searches.append(make_search(_sub(case, i), run, d, storage=(storage, sid)))
+        except Exception as e:
+            return {"unavailable": f"{type(e).__name__}: {str(e)[:80]}"}
+        first_err = None
+        for t, k in enumerate(case["turns"]):
+            i = t % 2
+            if per[i]["err"] is not None:
+                continue
+            current[0] = i
+            n0 = len(spy.calls)
+            try:
+                with contextlib.redirect_stdout(io.StringIO()):  # gather_other_jobs_done prints the storage's job data
+                    searches[i].search(max_evals=k)
+            except Exception as e:
+                per[i]["err"] = f"{type(e).__name__}: {str(e)[:100]}"
+                first_err = first_err or f"search {i} ({_sub(case, i)['cls']}), turn {t}: {per[i]['err']}"
+            per[i]["told"] += [y for _x, y in spy.calls[n0:]]
+        for i in range(2):
+            per[i]["cells"] = T.read_csv_cells(os.path.join(tmp, f"s{i}", "results.csv"))
+        return {"err": first_err, "per": per, "returned": ret, "owner": owner,
+                "configs": {j: c for p_ in per for j, c in p_["configs"].items()}}
+    finally:
+        spy.close()
         shutil.rmtree(tmp, ignore_errors=True)
 
 
@@ -217,48 +365,114 @@ def pattern_tag(pattern):
     return "failure-later"
 
 
-def options_tag(case):
+def options_tag(case, who=0):
+    """option values of the (failing) search `who` that differ from the defaults"""
+    sub = _sub(case, who) if case.get("shared") else case
     parts = ["moo" if case["nobj"] > 1 else "single"]
     for k in ("kind", "policy", "surrogate", "workers", "strategy", "max_failures"):
-        if case.get(k, DEFAULTS[k]) != DEFAULTS[k] and (case["cls"] == "CBO" or k in ("kind", "workers")):
-            parts.append(f"{k}={case[k]}")
+        if sub.get(k, DEFAULTS[k]) != DEFAULTS[k] and (sub["cls"] == "CBO" or k in ("kind", "workers")):
+            parts.append(f"{k}={sub[k]}")
+    if case.get("shared"):
+        parts.append("shared-storage")
+    if case.get("labels") and case["kind"] == "str":
+        forms = sorted({label_form(x) for x in case["labels"]})
+        if forms != ["F_*"]:  # the documented form 'F_<reason>' is the default
+            parts.append("labels=" + "/".join(forms))
     parts.append(pattern_tag(case["pattern"]))
     return ",".join(parts)
 
 
-def oracle_case(case, obs, relabel=None):
-    """the property on one observed run -> list of (clause, detail)"""
+def _rows_clauses(cells, returned, must_have):
+    """rows of one results.csv against what the run-function returned (by job id): every failed
+    evaluation in `must_have` has a row, and every failed evaluation that has a row is marked"""
     out = []
-    if obs["err"] is not None:
-        return [("raises", obs["err"])]
-    for jid, cfg in obs["configs"].items():
-        if not valid_config(cfg):
-            out.append(("invalid-proposal", {"job": jid, "config": repr(cfg)}))
-            break
-    cells = obs["cells"]
     if not cells:
-        if obs["returned"]:
-            out.append(("no-table", None))
-        return out
+        return [("no-table", None)] if must_have else []
     hdr, body = cells[0], cells[1:]
     col = {c: i for i, c in enumerate(hdr)}
     ocols = [c for c in hdr if c.startswith("objective")]
     by_id = {line[col["job_id"]]: line for line in body} if "job_id" in col else {}
-    for jid, r in obs["returned"].items():
+    for jid, r in returned.items():
         if not T.is_failure_obj(r):
             continue
         line = by_id.get(str(jid))
         if line is None:
-            out.append(("failed-evaluation-not-recorded", {"job": jid}))
-            break
+            if jid in must_have:
+                out.append(("failed-evaluation-not-recorded", {"job": jid}))
+                break
+            continue
         bad = [c for c in ocols if not line[col[c]].startswith("F")]
         if bad or not ocols:
-            out.append(("failed-row-not-marked", {"job": jid, "columns": bad, "line": line}))
+            out.append(("failed-row-not-marked", {"job": jid, "columns": bad, "line": line, "returned": repr(r)}))
             break
+    return out
+
+
+def _nonfinite_in(y):
+    flat = []
+    for v in y:
+        flat += list(v) if isinstance(v, (list, tuple)) else [v]
+    return any(isinstance(x, (int, float, np.floating)) and not isinstance(x, bool) and not math.isfinite(x) for x in flat)
+
+
+def progress_clause(case, events):
+    """the batch proposed right after a batch that failed entirely is not that batch again"""
+    if case["cls"] not in FRESH_CLASSES or not events:
+        return []
+    for i, ev in enumerate(events):
+        if ev[0] != "tell" or not ev[1]:
+            continue
+        if not all(isinstance(o, str) and o.startswith("F") for _j, _c, o in ev[1]):
+            continue
+        nxt = next((e for e in events[i + 1:] if e[0] == "ask"), None)
+        if nxt is None or not nxt[1]:
+            continue
+        failed = {c for _j, c, _o in ev[1]}
+        if all(c in failed for c in nxt[1]):
+            return [("no-progress-after-failure", {"failed_batch": [repr(c) for c in sorted(failed)][:4],
+                                                   "failed_jobs": [j for j, _c, _o in ev[1]],
+                                                   "next_batch": [repr(c) for c in nxt[1]][:4]})]
+    return []
+
+
+def oracle_case(case, obs, relabel=None):
+    """the property on one observed run -> list of (clause, detail, index of the search concerned)"""
+    if case.get("shared"):
+        return oracle_shared(case, obs)
+    out = []
+    if obs["err"] is not None:
+        return [("raises", obs["err"], 0)]
+    for jid, cfg in obs["configs"].items():
+        if not valid_config(cfg):
+            out.append(("invalid-proposal", {"job": jid, "config": repr(cfg)}, 0))
+            break
+    if obs["cells"] or obs["returned"]:
+        out += [(c, d, 0) for c, d in _rows_clauses(obs["cells"], obs["returned"], set(obs["returned"]))]
+    out += [(c, d, 0) for c, d in progress_clause(case, obs.get("events"))]
     if relabel is not None:
         a, a2, b = relabel
         if a == a2 and a != b:
-            out.append(("label-changes-proposals", {"with_F_x": _short(a), "relabelled": _short(b)}))
+            la, lb = (case.get("labels") or ["F_x", "F_another_label_0123"])[:2]
+            out.append(("label-changes-proposals", {"labels": [la, lb], "with_first": _short(a), "with_second": _short(b)}, 0))
+    return out
+
+
+def oracle_shared(case, obs):
+    out = []
+    for i, p_ in enumerate(obs["per"]):
+        if p_["err"] is not None:
+            out.append(("raises", p_["err"], i))
+        for jid, cfg in p_["configs"].items():
+            if not valid_config(cfg):
+                out.append(("invalid-proposal", {"job": jid, "config": repr(cfg)}, i))
+                break
+        for y in p_["told"]:
+            if _nonfinite_in(y):
+                out.append(("nonfinite-told-to-optimizer", {"y": repr(y)[:200]}, i))
+                break
+        if p_["err"] is None:
+            own = {j for j, w in obs["owner"].items() if w == i}
+            out += [(c, d, i) for c, d in _rows_clauses(p_["cells"], obs["returned"], own)]
     return out
 
 
@@ -270,27 +484,62 @@ def proposals(obs):
     return [tuple(sorted((k, repr(v)) for k, v in obs["configs"][j].items())) for j in sorted(obs["configs"])]
 
 
-def shrink_case(case, clause):
+def _clauses(case, obs):
+    return {(cl, who) for cl, _d, who in oracle_case(case, obs)}
+
+
+def _case_ok(c):
+    if c["kind"] == "nan-in-tuple" and c["nobj"] == 1:
+        return False
+    subs = [c] + ([_sub(c, 1)] if c.get("shared") else [])
+    if c.get("shared") and c["nobj"] > 1 and not any(c["pattern"][i % len(c["pattern"])] for i in range(c["turns"][0])):
+        # a first search() call that ends with nothing but failed multi-objective evaluations fixes the
+        # header to the single column 'objective' (open finding of C04, `FlushOK` of C04_rows): not generated
+        return False
+    return not any(x["cls"] == "RegularizedEvolution" and c["nobj"] > 1 for x in subs)
+
+
+def shrink_case(case, clause, who=0):
     def fails(c):
+        if not _case_ok(c):
+            return False
         obs = run_case(c)
         if "unavailable" in obs:
             return False
-        return clause in {cl for cl, _ in oracle_case(c, obs)}
+        return (clause, who) in _clauses(c, obs)
 
-    cur = dict(case)
-    for k in ("cls", "surrogate", "policy", "workers", "kind", "nobj", "strategy", "max_failures"):
+    cur = copy.deepcopy(case)
+    keys = ("cls", "surrogate", "policy", "workers", "kind", "nobj", "strategy", "max_failures")
+    if cur.get("shared"):
+        for k in keys:
+            if k in cur["shared"] and cur["shared"][k] != DEFAULTS.get(k):
+                cand = copy.deepcopy(cur)
+                cand["shared"][k] = DEFAULTS[k]
+                if fails(cand):
+                    cur = cand
+    for k in keys:
         if cur.get(k, DEFAULTS[k]) != DEFAULTS[k]:
             cand = dict(cur, **{k: DEFAULTS[k]})
-            if cand["kind"] == "nan-in-tuple" and cand["nobj"] == 1:
-                continue
-            if cand["cls"] == "RegularizedEvolution" and cand["nobj"] > 1:
-                continue
             if fails(cand):
                 cur = cand
+    if cur.get("labels") and cur["kind"] != "str":
+        cur.pop("labels")
+    elif cur.get("labels") and cur["labels"] != ["F_x", "F_another_label_0123"]:
+        cand = dict(cur, labels=["F_x", "F_another_label_0123"])
+        if fails(cand):
+            cur = cand
+    if cur.get("shared") and len(cur["turns"]) > 2:
+        for n in range(2, len(cur["turns"])):
+            cand = dict(cur, turns=cur["turns"][:n])
+            if fails(cand):
+                cur = cand
+                break
     changed = True
-    while changed and len(cur["pattern"]) > 1:
+    budget = 40
+    while changed and len(cur["pattern"]) > 1 and budget > 0:
         changed = False
         for i in range(len(cur["pattern"])):
+            budget -= 1
             cand = dict(cur, pattern=cur["pattern"][:i] + cur["pattern"][i + 1:])
             if cand["pattern"] and fails(cand):
                 cur, changed = cand, True
@@ -298,8 +547,45 @@ def shrink_case(case, clause):
     return cur
 
 
-def fingerprint(case, clause):
-    return f"{PROP}|{clause}|{case['cls']}.search|{options_tag(case)}"
+def label_differs(case):
+    """same seed, same pattern, the two label sets of the case -> proposals differ (and each run is reproducible)"""
+    la, lb = case["labels"][:2]
+    a, a2, b, b2 = run_case(case, la), run_case(case, la), run_case(case, lb), run_case(case, lb)
+    if any("unavailable" in o or o.get("err") is not None for o in (a, a2, b, b2)):
+        return None
+    if proposals(a) != proposals(a2) or proposals(b) != proposals(b2):
+        return None
+    return (proposals(a), proposals(a2), proposals(b)) if proposals(a) != proposals(b) else None
+
+
+def shrink_label_case(case):
+    """minimise a `label-changes-proposals` case: default options, one representative text per label form"""
+    cur = copy.deepcopy(case)
+    rep = {"F": "F", "F_*": "F_x", "F*": "Fx"}
+    tries = []
+    la, lb = cur["labels"][:2]
+    tries.append(["F_x", "F_another_label_0123"])
+    for x in ([la] if isinstance(la, str) else la):
+        for y in ([lb] if isinstance(lb, str) else lb):
+            if label_form(x) != label_form(y):
+                tries.append([rep[label_form(x)], rep[label_form(y)]])
+                tries.append([x, y])
+    for lab in tries:
+        cand = dict(cur, labels=lab)
+        if label_differs(cand):
+            cur = cand
+            break
+    for k in ("surrogate", "policy", "nobj", "strategy", "max_failures"):
+        if cur.get(k, DEFAULTS[k]) != DEFAULTS[k]:
+            cand = dict(cur, **{k: DEFAULTS[k]})
+            if _case_ok(cand) and label_differs(cand):
+                cur = cand
+    return cur
+
+
+def fingerprint(case, clause, who=0):
+    cls = _sub(case, who)["cls"] if case.get("shared") else case["cls"]
+    return f"{PROP}|{clause}|{cls}.search|{options_tag(case, who)}"
 
 
 # --------------------------------------------------------------------------- part A: _on_done
@@ -352,10 +638,14 @@ def part_ondone(ck, reqs, post):
     storage = MemoryStorage()
     sid = storage.create_new_search()
     ev = Evaluator.create(run, method="serial", method_kwargs={"storage": storage, "search_id": sid})
+    # a second evaluator attached to the same storage and search: what does it read back?
+    ev2 = Evaluator.create(run, method="serial", method_kwargs={"storage": storage, "search_id": sid})
+    ev2._job_class = HPOJob
     for raw in raws:
         wire = T.enc(_plain(raw))
         case = {"part": "ondone", "out": wire}
         job = HPOJob(storage.create_new_job(sid), {"x": 0.5}, None, storage)
+        storage.store_job_in(job.id, args=({"x": 0.5},))  # as `Evaluator.submit` does
         job.status = JobStatus.RUNNING
         try:
             job.set_output(copy.deepcopy(raw))
@@ -363,6 +653,20 @@ def part_ondone(ck, reqs, post):
             got = {"err": None, "objective": T.enc(_plain(job.objective))}
         except Exception as e:
             got = {"err": type(e).__name__}
+        seen_by_other = None
+        if got["err"] is None:
+            try:
+                got["stored"] = T.enc(_plain(storage.load_job(job.id)["out"]))
+            except Exception as e:
+                got["stored"] = {"err": type(e).__name__}
+            try:
+                with contextlib.redirect_stdout(io.StringIO()):
+                    others = ev2.gather_other_jobs_done()
+                mine = [j for j in others if j.id == job.id]
+                seen_by_other = mine[0].objective if mine else None
+                got["other"] = {"seen": T.enc(_plain(seen_by_other))} if mine else None
+            except Exception as e:
+                got["other"] = {"err": type(e).__name__}
         exp = T.expected_objective(_plain(raw))
         kind = _failure_kind(exp)
         ck.case(case, nontrivial=kind != "success")
@@ -377,6 +681,12 @@ def part_ondone(ck, reqs, post):
             if not (isinstance(o, str) and o.startswith("F")):
                 ck.fail(f"{PROP}|failure-not-marked|Evaluator._on_done|{kind}",
                         f"_on_done leaves a {kind} objective unmarked", case, {"objective_after": repr(o)})
+            if isinstance(got.get("other"), dict) and "seen" in got["other"]:
+                ck.count("ondone:failure-read-back-by-another-evaluator")
+                if not (isinstance(seen_by_other, str) and seen_by_other.startswith("F")):
+                    ck.fail(f"{PROP}|failure-not-marked|Evaluator.gather_other_jobs_done|{kind}",
+                            f"another evaluator attached to the same search reads a {kind} objective back unmarked", case,
+                            {"objective_of_the_job_it_rebuilds": repr(seen_by_other), "local_objective_after_on_done": repr(job.objective)})
         reqs.append({"op": "ondone", "out": wire})
         post.append(("ondone", case, got))
 
@@ -689,6 +999,93 @@ def part_surrogate(ck, reqs, post):
                             "estimator.fit received a non-finite target", case, {"y": repr(fit)})
 
 
+# --------------------------------------------------------------------------- part G: the ask cache
+
+
+def part_cache(ck, reqs, post):
+    """which ask returns a batch computed now and which a batch returned before (the `cache_` of the
+    constant-liar ask): sequences of the public Optimizer calls, and of CBO.ask / CBO.tell"""
+    from deephyper.skopt import Optimizer
+
+    rng = ck.rng
+    strategies = ["cl_max", "cl_min", "cl_mean"]
+    # (1) Optimizer.ask(n, strategy) / tell / update_next on a fitted optimizer
+    for _ in range(ck.pick(12, 120)):
+        pol = rng.choice(["mean", "max", "ignore"])
+        opt = Optimizer([(0.0, 1.0), (0.0, 1.0)], base_estimator="ET", n_initial_points=2, acq_func="LCB", acq_optimizer="sampling",
+                        acq_optimizer_kwargs={"filter_failures": pol, "n_points": 30}, random_state=rng.randint(0, 999))
+        try:
+            opt.base_estimator_.set_params(n_estimators=5)
+        except Exception:
+            pass
+        x0 = opt.ask(n_points=3, strategy="cl_max")
+        opt.tell(x0, [float(i) for i in range(len(x0))])
+        ops, asks, returned = [], [], []
+        for i in range(rng.randint(3, 9)):
+            r = rng.random()
+            if r < 0.55:
+                n, st = rng.choice([1, 2, 2, 3]), rng.choice(strategies[:2] if rng.random() < 0.7 else strategies)
+                if ops and ops[-1]["k"] == "opt_ask" and rng.random() < 0.5:  # the same request again: served from the cache
+                    n, st = (int(ops[-1]["key"].split("|")[0]), ops[-1]["key"].split("|")[1])
+                X = opt.ask(n_points=n, strategy=st)
+                returned.append((i, X))
+                asks.append({"at": i, "n": n, "batch": [list(x) for x in X]})
+                ops.append({"k": "opt_ask", "key": f"{n}|{st}", "single": n == 1})
+            elif r < 0.8 and returned:
+                X = returned[-1][1]
+                ys = ["F" if (pol != "ignore" and rng.random() < 0.4) else rng.random() for _ in X]
+                opt.tell([list(x) for x in X], ys)
+                ops.append({"k": "opt_reset", "why": "tell"})
+            else:
+                opt.update_next()
+                ops.append({"k": "opt_reset", "why": "update_next"})
+        case = {"part": "cache", "level": "Optimizer", "policy": pol, "ops": ops}
+        ck.case(case, nontrivial=len(asks) >= 2)
+        reqs.append({"op": "cache", "ops": ops})
+        post.append(("cache", case, {"asks": asks}))
+    # (2) CBO.ask / CBO.tell: batches of results of every kind, among them batches of failures only
+    tmp = tempfile.mkdtemp(prefix="c06g_")
+    try:
+        async def run(job):
+            return float(job.parameters["x"])
+
+        for t in range(ck.pick(9, 90)):
+            pol = ["ignore", "min", "mean"][t % 3]
+            workers = rng.choice([1, 2, 2, 3])
+            case0 = {"cls": "CBO", "surrogate": "ET", "policy": pol, "workers": workers, "pattern": [1], "n_init": 2,
+                     "strategy": rng.choice(strategies), "seed": rng.randint(0, 999)}
+            s = make_search(case0, run, os.path.join(tmp, str(t)))
+            s.search(max_evals=2 * workers)  # fitted
+            ops, asks, returned = [], [], []
+            for i in range(rng.randint(3, 8)):
+                if rng.random() < 0.6 or not returned:
+                    X = s.ask(workers)
+                    key = [_cfg_key(c) for c in X]
+                    returned.append((i, key, [dict(c) for c in X]))
+                    asks.append({"at": i, "n": workers, "batch": key})
+                    ops.append({"k": "cbo_ask", "key": f"{workers}|{case0['strategy']}", "single": workers == 1})
+                else:
+                    last = returned[-1][2]
+                    mode = rng.choice(["all-failed", "all-failed", "mixed", "ok", "empty"])
+                    objs = []
+                    for _c in last:
+                        if mode == "all-failed" or (mode == "mixed" and rng.random() < 0.5):
+                            objs.append(gen_label(rng))
+                        else:
+                            objs.append(rng.random())
+                    if mode == "empty":
+                        objs = []
+                    results = [(dict(c), o) for c, o in zip(last, objs)]
+                    s.tell(results)
+                    ops.append({"k": "cbo_tell", "policy": POLICY_MAP[pol], "objs": [T.enc(o) for o in objs], "mode": mode})
+            case = {"part": "cache", "level": "CBO", "policy": pol, "workers": workers, "strategy": case0["strategy"], "ops": ops}
+            ck.case(case, nontrivial=any(o.get("mode") == "all-failed" for o in ops))
+            reqs.append({"op": "cache", "ops": ops})
+            post.append(("cache", case, {"asks": asks}))
+    finally:
+        shutil.rmtree(tmp, ignore_errors=True)
+
+
 # --------------------------------------------------------------------------- part E: regularized evolution
 
 
@@ -771,6 +1168,8 @@ def gen_matrix(ck):
                         for workers in (1, 2):
                             if sm in ("GP", "RF", "DUMMY") and rng.random() < ck.pick(0.6, 0.0):
                                 continue
+                            if sm == "GP" and rng.random() < ck.pick(0.4, 0.0):
+                                continue  # (a GP fit costs ~0.3-1 s: the quick tier samples fewer GP cells; thorough runs them all)
                             L = rng.randint(3, ck.pick(6, 10))
                             pf = rng.choice([0.2, 0.5, 0.8])
                             pattern = [0 if rng.random() < pf else 1 for _ in range(L)]
@@ -799,6 +1198,56 @@ def gen_matrix(ck):
         cases.append({"cls": "CBO", "nobj": rng.choice([1, 2]), "kind": rng.choice(KINDS[:4]), "policy": rng.choice(["min", "mean"]),
                       "surrogate": "ET", "workers": rng.choice([1, 2]), "pattern": pattern, "seed": rng.randint(0, 99),
                       "n_init": rng.choice([1, 2]), "strategy": "cl_max", "max_failures": mf})
+    # (2c) a whole gathered batch fails while the surrogate is fitted (then successes / more failures): every
+    # policy x workers x multi-point strategy x surrogate; the search must move on to other configurations
+    for _ in range(ck.pick(1, 6)):
+        for pol in ("ignore", "min", "mean"):
+            for workers in (1, 2, 3):
+                for strategy in (STRATEGIES if workers > 1 else ["cl_max"]):
+                    if pol != "ignore" and rng.random() < ck.pick(0.5, 0.0):
+                        continue
+                    n_init = rng.choice([1, 2])
+                    head = [1] * (workers * -(-n_init // workers) + rng.choice([0, workers]))
+                    body = [0] * (workers * rng.choice([1, 1, 2]))
+                    tail = [1 if rng.random() < 0.6 else 0 for _ in range(workers * rng.choice([1, 2]))]
+                    nobj = rng.choice([1, 1, 2])
+                    cases.append({"cls": "CBO", "nobj": nobj, "kind": rng.choice(KINDS if nobj > 1 else KINDS[:4]), "policy": pol,
+                                  "surrogate": rng.choice(ck.pick(["ET", "ET", "RF"], ["ET", "ET", "RF", "GP"])), "workers": workers,
+                                  "pattern": head + body + tail,
+                                  "seed": rng.randint(0, 99), "n_init": n_init, "strategy": strategy})
+    # (2d) two searches attached to one storage and search_id, taking turns: every failure kind reported by
+    # either of them is read back from the storage by the other one
+    classes2 = ["CBO", "CBO", "CBO", "RandomSearch", "RegularizedEvolution"]
+    surr2 = ck.pick(["ET", "ET", "ET", "RF"], ["ET", "ET", "RF", "GP"])  # (a GP fit costs seconds: thorough tier only)
+    for _ in range(ck.pick(1, 8)):
+        for kind in KINDS:
+            for nobj in (1, 2):
+                if kind == "nan-in-tuple" and nobj == 1:
+                    continue
+                for rep in range(2):
+                    cls1, cls2 = rng.choice(classes2), ("CBO" if rep == 0 else rng.choice(classes2))
+                    if nobj > 1:
+                        cls1, cls2 = (c if c != "RegularizedEvolution" else "RandomSearch" for c in (cls1, cls2))
+                    L = rng.randint(6, 10)
+                    pf = rng.choice([0.3, 0.5])
+                    pattern = [0 if rng.random() < pf else 1 for _ in range(L)]
+                    if all(pattern):
+                        pattern[rng.randrange(L)] = 0
+                    if rng.random() < 0.3:
+                        pattern[0] = 0
+                    turns = [rng.randint(2, 4), rng.randint(3, 5)] + [rng.randint(1, 3) for _ in range(rng.choice([0, 1, 2]))]
+                    if nobj > 1 and not any(pattern[:turns[0]]):
+                        pattern[rng.randrange(1, turns[0])] = 1  # (see `_case_ok`: C04's open finding is not C06's subject)
+                    cases.append({"cls": cls1, "nobj": nobj, "kind": kind, "policy": rng.choice(["min", "mean", "ignore"]),
+                                  "surrogate": rng.choice(surr2), "workers": rng.choice([1, 1, 2]), "pattern": pattern,
+                                  "seed": rng.randint(0, 99), "n_init": rng.choice([1, 2]), "strategy": "cl_max", "turns": turns,
+                                  "shared": {"cls": cls2, "policy": rng.choice(["min", "mean", "ignore"]),
+                                             "surrogate": rng.choice(surr2), "workers": rng.choice([1, 1, 2]),
+                                             "seed": rng.randint(0, 99), "n_init": rng.choice([1, 2, 3])}})
+    # (2e) the text of the label: one-worker model-based searches whose surrogate is fitted on a history that
+    # contains failures and which propose at least twice afterwards, every pair of label forms
+    # ('F' alone / 'F_<reason>' / 'F<any other text>'), one text for all failures or one per failure
+    cases += gen_label_cases(ck, rng, ck.pick(1, 6))
     # (3) other search classes
     for _ in range(ck.pick(30, 400)):
         L = rng.randint(2, ck.pick(6, 10))
@@ -808,13 +1257,49 @@ def gen_matrix(ck):
         kind = rng.choice(KINDS if nobj > 1 else KINDS[:4])
         cases.append({"cls": cls, "nobj": nobj, "kind": kind, "policy": "min", "surrogate": "ET", "workers": rng.choice([1, 2]),
                       "pattern": pattern, "seed": rng.randint(0, 99)})
+    # the text of the labels of every string-failure case: two label sets (one text, or one text per failure),
+    # the run uses the first, the relabelled run the second
+    for c in cases:
+        if c["kind"] == "str" and "labels" not in c:
+            a, b = gen_labels(rng), gen_labels(rng)
+            if a == b:
+                b = "F_another_label_0123" if a != "F_another_label_0123" else "F_x"
+            c["labels"] = [a, b]
     return cases
+
+
+def gen_label_cases(ck, rng, reps):
+    out = []
+    forms = {"F": lambda: "F", "F_*": lambda: rng.choice([x for x in LABEL_POOL if x.startswith("F_")]),
+             "F*": lambda: rng.choice([x for x in LABEL_POOL if label_form(x) == "F*"] + [gen_label(rng) + "!"])}
+    pairs = [("F_*", "F*"), ("F", "F*"), ("F_*", "F"), ("F*", "F*"), ("F_*", "F_*")]
+    for _ in range(reps):
+        for fa, fb in pairs:
+            for pol in ("min", "mean"):
+                n_init = rng.choice([1, 2])
+                nf = rng.choice([1, 1, 2])
+                if rng.random() < 0.5:  # failures first
+                    pattern = [0] * nf + [1] * n_init
+                else:
+                    pattern = [1] * n_init + [0] * nf
+                pattern += [1 if rng.random() < 0.7 else 0 for _ in range(rng.randint(2, 4))]
+                a, b = forms[fa](), forms[fb]()
+                if a == b:
+                    b = b + "2"
+                if rng.random() < 0.3:  # one text per failure
+                    a, b = [a, forms[fa]()], [forms[fb](), b]
+                nobj = rng.choice([1, 1, 2])
+                out.append({"cls": "CBO", "nobj": nobj, "kind": "str", "policy": pol,
+                            "surrogate": rng.choice(ck.pick(["ET", "ET", "RF"], ["ET", "RF", "GP"])), "workers": 1, "pattern": pattern,
+                            "seed": rng.randint(0, 99), "n_init": n_init, "strategy": "cl_max", "labels": [a, b]})
+    return out
 
 
 def eval_matrix_case(args):
     """(runs in a worker process in the thorough tier)"""
     case, do_label = args
-    if not available(case["cls"], case["surrogate"]):
+    subs = [case] + ([_sub(case, 1)] if case.get("shared") else [])
+    if not all(available(c["cls"], c["surrogate"]) for c in subs):
         return case, {"unavailable": True}, []
     obs = run_case(case)
     if "unavailable" in obs:
@@ -822,14 +1307,20 @@ def eval_matrix_case(args):
     relabel = None
     # relabelling is compared on one-worker runs only: with several workers the order in which
     # asyncio.wait hands back finished tasks (a set) is not reproducible, whatever the labels are
-    if do_label and case["kind"] == "str" and case["workers"] == 1 and obs["err"] is None and not all(case["pattern"]):
-        a2 = run_case(case)
-        b = run_case(case, label="F_another_label_0123")
-        b2 = run_case(case, label="F_another_label_0123")
+    if (do_label and case["kind"] == "str" and all(c["workers"] == 1 for c in subs) and obs["err"] is None
+            and not all(case["pattern"])):
+        la, lb = (case.get("labels") or ["F_x", "F_another_label_0123"])[:2]
+        a2 = run_case(case, la)
+        b = run_case(case, lb)
+        b2 = run_case(case, lb)
         if a2.get("err") is None and b.get("err") is None and b2.get("err") is None and proposals(b) == proposals(b2):
             relabel = (proposals(obs), proposals(a2), proposals(b))
-    viol = oracle_case(case, obs, relabel)
-    return case, {"err": obs["err"], "n": len(obs["configs"]), "relabel": relabel is not None}, viol
+    viol = oracle_case(case, obs, None if case.get("shared") else relabel)
+    if case.get("shared") and relabel is not None and relabel[0] == relabel[1] and relabel[0] != relabel[2]:
+        viol.append(("label-changes-proposals", {"labels": case.get("labels"), "with_first": _short(relabel[0]),
+                                                  "with_second": _short(relabel[2])}, 0))
+    return case, {"err": obs["err"], "n": len(obs["configs"]), "relabel": relabel is not None,
+                  "events": [(e[0], [(0, 0, o) for _j, _c, o in e[1]]) for e in obs.get("events", []) if e[0] == "tell" and e[1]]}, viol
 
 
 _TP = []
@@ -874,6 +1365,15 @@ def part_matrix(ck, extra_cases=()):
             ck.count(f"not-available:{case['cls']}:{case['surrogate'] if case['cls'] == 'CBO' else '-'}")
             continue
         ck.case(case, nontrivial=any(case["pattern"]) and not all(case["pattern"]))
+        if case.get("shared"):
+            ck.count("search:two-searches-on-one-storage")
+            ck.count(f"search:shared:{case['cls']}+{case['shared']['cls']}")
+        if case.get("labels"):
+            for lab in case["labels"]:
+                ck.count("search:label-form=" + label_form(lab) + ("" if isinstance(lab, str) else ",per-failure"))
+        tells = [e for e in (info.get("events") or []) if e[0] == "tell" and e[1]]
+        if any(all(isinstance(o, str) for _j, _c, o in e[1]) for e in tells):
+            ck.count("search:all-failed-batch" + (f":workers={case['workers']}" if case["cls"] == "CBO" else ""))
         ck.count(f"search:{case['cls']}:{case['surrogate'] if case['cls'] == 'CBO' else '-'}")
         ck.count(f"search:kind={case['kind']}")
         ck.count(f"search:policy={case['policy']}" if case["cls"] == "CBO" else "search:policy=-")
@@ -886,8 +1386,9 @@ def part_matrix(ck, extra_cases=()):
         ck.count(f"search:len={len(case['pattern'])}")
         if info.get("relabel"):
             ck.count("search:relabelled-run-compared")
-        for clause, detail in viol:
-            ck.fail(fingerprint(case, clause), f"{clause}: {case['cls']}.search ({options_tag(case)})", case, detail)
+        for clause, detail, who in viol:
+            ck.fail(fingerprint(case, clause, who), f"{clause}: {fingerprint(case, clause, who).split('|')[2]} ({options_tag(case, who)})",
+                    dict(case, _who=who), detail)
 
 
 def corpus_cases():
@@ -907,14 +1408,25 @@ def _shrink_failures(ck):
     for f in ck.failures:
         case = f["case"]
         parts = f["fingerprint"].split("|")
-        if isinstance(case, dict) and "pattern" in case and parts[2].endswith(".search") and case.get("part") is None and parts[1] != "label-changes-proposals":
+        if isinstance(case, dict) and "pattern" in case and parts[2].endswith(".search") and case.get("part") is None:
+            who = case.get("_who", 0)
+            base = {k: v for k, v in case.items() if k != "_who"}
             try:
-                small = shrink_case(case, parts[1])
-                obs = run_case(small)
-                viol = dict(oracle_case(small, obs))
-                if parts[1] in viol:
-                    f = dict(f, case=small, fingerprint=fingerprint(small, parts[1]), detail=viol[parts[1]],
-                             what=f"{parts[1]}: {small['cls']}.search ({options_tag(small)})")
+                if parts[1] == "label-changes-proposals":
+                    small = shrink_label_case(base) if not base.get("shared") else base
+                    rel = label_differs(small)
+                    if rel:
+                        f = dict(f, case=dict(small, _who=who), fingerprint=fingerprint(small, parts[1], who),
+                                 detail={"labels": small["labels"][:2], "with_first": _short(rel[0]), "with_second": _short(rel[2])},
+                                 what=f"{parts[1]}: {small['cls']}.search ({options_tag(small, who)})")
+                else:
+                    small = shrink_case(base, parts[1], who)
+                    obs = run_case(small)
+                    viol = {(cl, w): d for cl, d, w in oracle_case(small, obs)}
+                    if (parts[1], who) in viol:
+                        fp = fingerprint(small, parts[1], who)
+                        f = dict(f, case=dict(small, _who=who), fingerprint=fp, detail=viol[(parts[1], who)],
+                                 what=f"{parts[1]}: {fp.split('|')[2]} ({options_tag(small, who)})")
             except Exception:
                 pass
         if f["fingerprint"] in new:
@@ -938,6 +1450,31 @@ def compare(ck, kind, case, got, rep):
             return {"impl": got, "model": rep}
         if got["err"] is None and not T._val_eq(got["objective"], rep["objective"]):
             return {"impl": got, "model": rep}
+        if got["err"] is None and "stored" in got:
+            if "err" in got["stored"] or not T._val_eq(got["stored"], rep["stored"]):
+                return {"what": "the 'out' entry of the storage", "impl": got["stored"], "model": rep["stored"]}
+            go, mo = got.get("other"), rep.get("other")
+            same = (go is None and mo is None) or (isinstance(go, dict) and isinstance(mo, dict) and (
+                ("err" in go and "err" in mo) or ("seen" in go and "seen" in mo and T._val_eq(go["seen"], mo["seen"]))))
+            if not same:
+                return {"what": "objective read back by another evaluator on the same search", "impl": go, "model": mo}
+        return None
+    if kind == "cache":
+        asks = [r for r in rep["asks"] if isinstance(r, dict) and "hit" in r]
+        if len(asks) != len(got["asks"]):
+            raise HarnessError(f"cache: {len(asks)} model asks for {len(got['asks'])} real ones")
+        for g, m in zip(got["asks"], asks):
+            ck.count(f"cache:{case['level']}:" + ("cached" if m["hit"] else ("single-point" if g["n"] == 1 else "computed")))
+        # two asks of the same size return the same batch iff the model says it is the same computation
+        for i in range(len(asks)):
+            for j in range(i + 1, len(asks)):
+                gi, gj = got["asks"][i], got["asks"][j]
+                if gi["n"] != gj["n"]:
+                    continue
+                if (gi["batch"] == gj["batch"]) != (asks[i]["from"] == asks[j]["from"]):
+                    return {"ask_ops": [gi["at"], gj["at"]], "impl_same_batch": gi["batch"] == gj["batch"],
+                            "model_same_computation": asks[i]["from"] == asks[j]["from"], "model_cached": asks[j]["hit"],
+                            "batch": repr(gj["batch"])[:300], "ops": case["ops"]}
         return None
     if kind == "tell":
         if (got["err"] is None) != (rep["err"] is None):
@@ -1033,27 +1570,74 @@ def run(ck):
     ck.trusted_extra = ["scikit-learn estimators (ET/RF/GP) accept finite targets; ConfigSpace sampling"]
     reqs, post = [], []
     _one_thread()
-    part_ondone(ck, reqs, post)
-    part_tell_filter(ck, reqs, post)
-    part_opttell(ck, reqs, post)
-    part_surrogate(ck, reqs, post)
-    part_regevo(ck, reqs, post)
+    import time as _time
+
+    t0 = _time.time()
+    for part in (part_ondone, part_tell_filter, part_opttell, part_surrogate, part_regevo, part_cache):
+        part(ck, reqs, post)
+        ck.count(f"seconds:{part.__name__}", round(_time.time() - t0))
+        t0 = _time.time()
     with ck.driver() as d:
         reps = d.ask_all(reqs)
     for (kind, case, got), rep in zip(post, reps):
         bad = compare(ck, kind, case, got, rep)
         if bad:
             ck.mismatch(case, bad)
+    ck.count("seconds:model", round(_time.time() - t0))
+    t0 = _time.time()
     part_matrix(ck)
+    ck.count("seconds:part_matrix", round(_time.time() - t0))
+    t0 = _time.time()
+    _shrink_failures(ck)
+    ck.count("seconds:shrink", round(_time.time() - t0))
+
+
+def search(ck):
+    """deeper failing-input search (called when L1/L2 broke and `run` found no failing input): more of the
+    directed families — label texts of every form, whole batches failing under every policy / strategy,
+    two searches on one storage"""
+    import random
+
+    class _Deep:
+        thorough = False
+
+        def __init__(self, rng):
+            self.rng = rng
+
+        def pick(self, quick, thorough):
+            return thorough
+
+    rng = random.Random(ck.rng.getrandbits(32))
+    deep = _Deep(rng)
+    cases = gen_label_cases(deep, rng, 4)
+    cases += [c for c in gen_matrix(deep) if (c.get("shared") or c.get("strategy", "cl_max") != "cl_max" or c["kind"] == "str")
+              and c["cls"] != "RandomSearch" and c["surrogate"] not in ("GP", "DUMMY")][:150]
+    for case in cases:
+        try:
+            c, info, viol = eval_matrix_case((case, True))
+        except Exception:
+            continue
+        if info.get("unavailable"):
+            continue
+        ck.case(case)
+        ck.count("deep-search:case")
+        for clause, detail, who in viol:
+            ck.fail(fingerprint(case, clause, who), f"{clause}: {fingerprint(case, clause, who).split('|')[2]} ({options_tag(case, who)})",
+                    dict(case, _who=who), detail)
+        if len(ck.failures) >= 3:
+            break
     _shrink_failures(ck)
 
 
 def replay(ck, case):
     if "pattern" in case and "cls" in case and case.get("part") is None:
-        c, info, viol = eval_matrix_case((case, True))
-        ck.case(case)
-        print("replay:", options_tag(case), info, "violations:", [v[0] for v in viol] or "none")
-        for clause, detail in viol:
-            ck.fail(fingerprint(case, clause), f"{clause}: {case['cls']}.search ({options_tag(case)})", case, detail)
+        base = {k: v for k, v in case.items() if k != "_who"}
+        c, info, viol = eval_matrix_case((base, True))
+        ck.case(base)
+        print("replay:", options_tag(base, case.get("_who", 0)), {k: v for k, v in info.items() if k != "events"},
+              "violations:", [v[0] for v in viol] or "none")
+        for clause, detail, who in viol:
+            ck.fail(fingerprint(base, clause, who), f"{clause}: {fingerprint(base, clause, who).split('|')[2]} ({options_tag(base, who)})",
+                    dict(base, _who=who), detail)
     else:
         run(ck)
